@@ -75,7 +75,8 @@ def is_external_opaque(n: ast.Call) -> bool:
 EXTERNAL_PURE = {"os.path.exists": ("fs_exists", "bool"), "os.path.join": ("path_join", "str"), "os.path.isfile": ("fs_isfile", "bool"),
                  "os.path.isdir": ("fs_isdir", "bool"), "os.path.basename": ("path_basename", "str"), "os.path.dirname": ("path_dirname", "str")}
 EXTERNAL_EFFECT = {"os.makedirs", "os.mkdir"}
-RULES.append("`with open(p, mode) as f:` and json.dump(x, f) are recorded in an effect log (path, payload); the bytes written are [A] json")
+RULES.append("`with open(p, mode) as f:` and json.dump(x, f) are recorded in an effect log (path, payload); the bytes written are [A] json; "
+             "shutil.copy(src, dst) is recorded as (destination, source); the bytes copied are [A] shutil")
 RULES.append("external pure calls as uninterpreted functions: os.path.exists/join/isfile/isdir/basename/dirname; os.makedirs/os.mkdir as no-ops on everything a contract mentions")
 
 
